@@ -260,6 +260,9 @@ type Opts struct {
 	HangIsViolation bool // a stalled child is a violation (C10/C18) instead of inconclusive
 	Race           bool // use the -race binary for the children
 	MemMB          int  // ulimit -v for children (0 = none)
+	// InconclusiveFatal: a child death whose key contains one of these substrings is attributed to the test
+	// support code named there, not to the property (reported inconclusive, counted).
+	InconclusiveFatal []string
 	Env            []string
 }
 
@@ -488,7 +491,14 @@ loop:
 		}
 		return last, false
 	}
-	r.Violation(last, group, "fatal:"+PanicKey(string(logb)), fmt.Sprintf("process died in case %s:%d (%v)", group, last, werr),
+	fkey := "fatal:" + PanicKey(string(logb))
+	for _, sub := range o.InconclusiveFatal {
+		if strings.Contains(fkey, sub) {
+			r.Count("child_deaths_in_test_support_code:"+sub, 1)
+			return last, false
+		}
+	}
+	r.Violation(last, group, fkey, fmt.Sprintf("process died in case %s:%d (%v)", group, last, werr),
 		map[string]interface{}{"log": tail})
 	return last, false
 }
